@@ -539,8 +539,10 @@ class RTCRtpReceiver:
         if pli_flag:
             await self._send_rtcp_pli(packet.ssrc)
 
-        # if we have a complete encoded frame, decode it
-        if encoded_frame is not None and self.__decoder_thread:
+        # if we have a complete encoded frame, decode it; a frame without data
+        # (packets with empty payloads only) has nothing to decode, and FFmpeg
+        # takes an empty packet as the request to flush the decoder for good
+        if encoded_frame is not None and encoded_frame.data and self.__decoder_thread:
             encoded_frame.timestamp = self.__timestamp_mapper.map(
                 encoded_frame.timestamp
             )
